@@ -45,7 +45,15 @@ func (d *Decoder) Decode(r io.Reader, t *dials.Type) (reflect.Value, error) {
 	}
 
 	instance := val.Addr().Interface()
-	err = yaml.Unmarshal(yamlBytes, instance)
+	err = func() (err error) {
+		// yaml.v2 panics on a struct type it cannot use (e.g. one key on two fields)
+		defer func() {
+			if p := recover(); p != nil {
+				err = fmt.Errorf("yaml: %v", p)
+			}
+		}()
+		return yaml.Unmarshal(yamlBytes, instance)
+	}()
 	if err != nil {
 		return reflect.Value{}, err
 	}
